@@ -212,6 +212,37 @@ pub fn c08(ctx: &mut Ctx, tier: &str, seed: u64) {
                 if cg.iter().skip(spec::canon(&ca).len()).any(|c| matches!(c, SComp::Cur)) {
                     ctx.fail("verbatim-join-no-dot", None, rp.clone(), show_sc(&cg));
                 }
+                // byte clause for the verbatim rule: a's prefix text, then the components of the scan
+                // each preceded by exactly one `\` (the root IS that `\`)
+                if let Some((_, n)) = &da.prefix {
+                    let mut wb = a[..*n].to_vec();
+                    let mut after_root = false;
+                    // (the buffer the code rebuilds is made of a's OWN components: no implicit root)
+                    let want_raw = spec::join_rules_verbatim(&ca, &db.comps);
+                    for c in want_raw.iter().skip(1) {
+                        match c {
+                            SComp::Root => {
+                                wb.push(b'\\');
+                                after_root = true;
+                            }
+                            other => {
+                                if !after_root {
+                                    wb.push(b'\\');
+                                }
+                                after_root = false;
+                                match other {
+                                    SComp::Cur => wb.push(b'.'),
+                                    SComp::Parent => wb.extend_from_slice(b".."),
+                                    SComp::Normal(x) => wb.extend_from_slice(x),
+                                    _ => {}
+                                }
+                            }
+                        }
+                    }
+                    if got != wb {
+                        ctx.fail("verbatim-join-bytes", None, rp.clone(), format!("impl \"{}\" rules \"{}\"", lossy(&got), lossy(&wb)));
+                    }
+                }
             } else if rule == "append" {
                 // a leading `.` of b survives only if it still starts the path, i.e. when a is
                 // empty or a bare disk prefix
